@@ -1,21 +1,37 @@
 (* C01 — Every solver solution is grammar-valid and satisfies the constraint.
-   Only statements + `exact`; proofs: Solver/Sound.v, RulesFacts.v, SolveSound.v.
-   Models: Solver/State.v (acceptance check), Solver/Rules.v (abstract rule system).
+   Only statements + `exact`; proofs: Solver/Sound.v, RulesFacts.v, SolveSound.v, PredStable.v,
+   SolveSoundMore.v (proof extension).
+   Models: Solver/State.v (acceptance check), Solver/Rules.v + RulesMore.v (abstract rule system).
 
    FULL STATEMENT (not proved about the Python code; see strength below):
      every tree returned by ISLaSolver.solve() is closed, a derivation tree of the grammar rooted at
      the start symbol, its string is in the language, and it satisfies the solver's constraint under
      the specification semantics — for every prefix of the sequence of solve() calls.
-   STRENGTH: PARTIAL.  (a) C01_solve_sound_partial is about an ABSTRACT transition system that
-   over-approximates the elimination chain of solve(); SMT elimination, semantic predicates, tree
-   insertion, universal numeric quantifiers and removal of universals over open in-trees are
-   PREMISES (sound_rel hypotheses).  (b) The full statement is
+   STRENGTH: PARTIAL.  (a) C01_solve_sound_partial2 (proof extension; supersedes
+   C01_solve_sound_partial, which is kept) is about an ABSTRACT transition system that
+   over-approximates the elimination chain of solve().  NOW RULES WITH PROVED SOUNDNESS (were
+   premises): tree insertion for EVERY method mask (C01_local_sound_insert + C13:
+   C01_insert_tree_step / _any_mask), removal of universal quantifiers over OPEN in-trees
+   (C01_local_sound_infeasible + C06 reachability; without match expression the guard is the
+   computed might-match test, C01_infeasible_guard_from_qmm; WITH a match expression the rule keeps
+   the semantic guard me_settled — completeness of can_extend_leaf_... is not proved), definite
+   verdicts of count (C01_count_true_stable / C01_count_false_stable + C14 count_decide).
+   STILL PREMISES: SMT elimination (H_smt), universal numeric quantifiers (H_numq), semantic
+   predicates that answer with a tree binding (H_sem_search: count's insertion search, class
+   K_count), each in the weaker form "preserves the invariant inv" (implied by the old sound_rel +
+   root label kept: C01_refines_preserves), and the evaluated grammar check reach_closedb g.
+   The old premise H_insert (sound_rel of insertion) is UNSATISFIABLE for insertions that move host
+   nodes (C01_insert_not_refinement_refuted): soundness of insertion rests on re-conjoining the
+   original formula, not on refinement; the invariant is now relative to the initial state.
+   (b) The full statement is
    REFUTED for constraints with nth (C01_eval_unsound_nth: the evaluation step the code performs
    without a stability side condition adds a non-solution; reproduced on the implementation, known
-   finding K_nth) and, on the implementation, for count (K_count, inside the premise H_sem).
+   finding K_nth) and, on the implementation, for count (K_count, inside the premise H_sem_search).
    (c) The tie to /repo is the runtime check of every returned tree by sol_check
    (C01_checked_solution_valid / _complete). *)
-From ISLA Require Import PredStable.
+From ISLA Require Import PredStable SolveSoundMore.
+From ISLA Require Eval3 Insert InsertFacts InsertSelfMore InsertCtxMore FixedLen.
+From Coq Require Import ZArith.
 
 (* ---- runtime acceptance check ---- *)
 Theorem C01_checked_solution_valid : forall g start cst f t,
@@ -113,3 +129,207 @@ Example C01_solve_sound_nonvacuous :
   final ([], RunExample.t1) /\ sound_rel RunExample.g R.
 Proof. exact solve_sound_example. Qed.
 Print Assumptions C01_solve_sound_nonvacuous.
+
+(* ==================================================================== *)
+(* PROOF EXTENSION (Solver/RulesMore.v, Solver/SolveSoundMore.v): insertion, infeasible universal
+   quantifiers and count verdicts become RULES with proved local soundness (C13, C06, C14)        *)
+(* ==================================================================== *)
+
+(* ---- vocabulary: refinement steps and the invariant relative to the initial problem ---- *)
+Theorem C01_refines_def : forall g R,
+  refines g R <->
+  (forall s s', R s s' ->
+     lbl (snd s') = lbl (snd s) /\ (wf_tree g (snd s) -> wf_tree g (snd s')) /\
+     (forall t', Sol g s' t' -> Sol g s t')).
+Proof. exact (fun g R => iff_refl _). Qed.
+Print Assumptions C01_refines_def.
+
+Theorem C01_inv_def : forall g start i0 cst phi s,
+  inv g start i0 cst phi s <->
+  (wf_tree g (snd s) /\ lbl (snd s) = start /\
+   forall t', Sol g s t' -> Sol g (init_state start i0 cst phi) t').
+Proof. exact (fun g start i0 cst phi s => iff_refl _). Qed.
+Print Assumptions C01_inv_def.
+
+(* every refinement step preserves the invariant; the old premise shape (sound_rel) plus
+   "the root label is kept" is a refinement *)
+Theorem C01_refines_preserves : forall g start i0 cst phi R,
+  refines g R -> preserves (inv g start i0 cst phi) R.
+Proof. exact refines_preserves. Qed.
+Print Assumptions C01_refines_preserves.
+
+Theorem C01_sound_rel_refines : forall g R, sound_rel g R ->
+  (forall s s', R s s' -> lbl (snd s') = lbl (snd s)) -> refines g R.
+Proof. exact sound_rel_lbl_refines. Qed.
+Print Assumptions C01_sound_rel_refines.
+
+Theorem C01_local_sound_core_refines : forall g, refines g (core_step g).
+Proof. exact core_refines. Qed.
+Print Assumptions C01_local_sound_core_refines.
+
+(* ---- (1) tree insertion (eliminate_existential_formula) ---- *)
+(* the rule: the in-variable's subtree `host` is replaced by a grammar-valid tree with the same root
+   label, and the new constraint contains the original formula; NOTHING else of C13's `inserted` is
+   needed for soundness *)
+Theorem C01_local_sound_insert : forall g start i0 cst phi,
+  preserves (inv g start i0 cst phi) (insert_step g cst phi).
+Proof. exact insert_preserves. Qed.
+Print Assumptions C01_local_sound_insert.
+
+(* every result of the modelled insert_tree (C13) for a mask WITHOUT context addition is such a step
+   (via C13_insert_tree_partial: `inserted`) ... *)
+Theorem C01_insert_tree_step :
+  forall g chain pb maxn meth cst phi cs1 cs2 b v w m body t p0 host ins rs res t1 cs',
+  InsertFacts.closed_g g -> InsertFacts.chain_ok chain -> wf_tree g t -> wf_tree g ins ->
+  InsertSelfMore.uniq_ids host ins -> Insert.K_ctx meth = false ->
+  b w = Some (VPos p0) -> subtree t p0 = Some host ->
+  Insert.insert_tree g chain pb maxn meth ins host = Ok rs -> In res rs ->
+  Insert.replace_at t p0 res = Some t1 -> In (env0 cst, phi) cs' ->
+  insert_step g cst phi (cs1 ++ (b, FExists v (InVar w) m body) :: cs2, t) (cs', t1).
+Proof. exact insert_tree_step. Qed.
+Print Assumptions C01_insert_tree_step.
+
+(* ... and for EVERY mask, context addition included (via C13_insert_tree_lossy_ok: the results
+   that lose the inserted tree are still valid trees with the host's root label) *)
+Theorem C01_insert_tree_step_any_mask :
+  forall g chain pb maxn meth cst phi cs1 cs2 b v w m body t p0 host ins rs res t1 cs',
+  InsertFacts.closed_g g -> InsertFacts.chain_ok chain -> InsertSelfMore.pb_start pb ->
+  wf_tree g t -> wf_tree g ins -> InsertSelfMore.uniq_ids host ins ->
+  b w = Some (VPos p0) -> subtree t p0 = Some host ->
+  Insert.insert_tree g chain pb maxn meth ins host = Ok rs -> In res rs ->
+  Insert.replace_at t p0 res = Some t1 -> In (env0 cst, phi) cs' ->
+  insert_step g cst phi (cs1 ++ (b, FExists v (InVar w) m body) :: cs2, t) (cs', t1).
+Proof. exact insert_tree_step_any_mask. Qed.
+Print Assumptions C01_insert_tree_step_any_mask.
+
+(* the premise H_insert of C01_solve_sound_partial was too strong: an insertion that moves host
+   nodes (self embedding) has solutions that are no completions of the old state tree *)
+Theorem C01_insert_not_refinement_refuted : exists g cst phi s s' t',
+  insert_step g cst phi s s' /\ Sol g s' t' /\ ~ Sol g s t'.
+Proof. exact insert_not_refinement. Qed.
+Print Assumptions C01_insert_not_refinement_refuted.
+
+(* ---- (2) removal of universal quantifiers whose in-tree may be open
+        (remove_infeasible_universal_quantifiers) ---- *)
+Theorem C01_infeasible_rule_def : forall g s s',
+  infeasible_drop g s s' <->
+  exists cs1 cs2 b v w m body t p0 s0,
+    s = (cs1 ++ (b, FForall v (InVar w) m body) :: cs2, t) /\ s' = (cs1 ++ cs2, t) /\
+    b w = Some (VPos p0) /\ subtree t p0 = Some s0 /\ is_nt (vtype v) = true /\
+    (forall q b', qmatch t b v w m q b' -> In (b', body) (cs1 ++ cs2)) /\
+    (forall leaf n, subtree t leaf = Some n -> opn n = true -> prefix p0 leaf ->
+       Eval3.reachb g (lbl n) (vtype v) = false) /\
+    match m with
+    | None => True
+    | Some me =>
+        forall q s1 t2 P, in_dom t b (InVar w) (vtype v) q -> subtree t q = Some s1 ->
+          In (t2, P) (me_trees me) -> smatch t2 s1 P q = None ->
+          forall s1', compl s1 s1' -> smatch t2 s1' P q = None
+    end.
+Proof. exact infeasible_drop_def. Qed.
+Print Assumptions C01_infeasible_rule_def.
+
+Theorem C01_local_sound_infeasible : forall g,
+  Eval3.reach_closedb g = true -> refines g (infeasible_drop g).
+Proof. exact infeasible_refines. Qed.
+Print Assumptions C01_local_sound_infeasible.
+
+(* without match expression the reachability guard is what the modelled might-match test (C06,
+   with the solver's already-matched ids) answers on the open leaves of the in-tree *)
+Theorem C01_infeasible_guard_from_qmm : forall g t am v p0,
+  (forall leaf n, subtree t leaf = Some n -> opn n = true -> prefix p0 leaf ->
+     Eval3.qmm3 g t am v p0 None leaf = false /\
+     (lbl n = vtype v -> Eval3.already_matched am n = true)) ->
+  no_leaf_reaches g t p0 (vtype v).
+Proof. exact qmm3_false_no_reach. Qed.
+Print Assumptions C01_infeasible_guard_from_qmm.
+
+(* the quantifier's domain gets no new position in any grammar-valid completion *)
+Theorem C01_quant_domain_no_new : forall g t t' p0 s0 T q s',
+  Eval3.reach_closedb g = true -> compl t t' -> wf_tree g t' ->
+  subtree t p0 = Some s0 -> is_nt T = true -> no_leaf_reaches g t p0 T ->
+  prefix p0 q -> subtree t' q = Some s' -> lbl s' = T ->
+  exists s, subtree t q = Some s /\ compl s s'.
+Proof. exact dom_no_new. Qed.
+Print Assumptions C01_quant_domain_no_new.
+
+(* ---- (3) definite verdicts of count (eliminate_all_ready_semantic_predicate_formulas,
+        evaluation_result.is_boolean()) ---- *)
+Theorem C01_local_sound_eval_g : forall g, refines g (eval_step_stable_g g).
+Proof. exact eval_stable_g_refines. Qed.
+Print Assumptions C01_local_sound_eval_g.
+
+Theorem C01_stable_count_settled : forall g t b x needle a3 p s,
+  Eval3.reach_closedb g = true -> is_nt needle = true ->
+  b x = Some (VPos p) -> subtree t p = Some s ->
+  (forall r n, subtree s r = Some n -> opn n = true -> Eval3.reachb g (lbl n) needle = false) ->
+  stable_g g t b (count_atom x needle a3) /\ stable_g g t b (FNot (count_atom x needle a3)).
+Proof. exact stable_count_settled. Qed.
+Print Assumptions C01_stable_count_settled.
+
+Theorem C01_stable_count_exceeded : forall t b x needle a3 p s,
+  b x = Some (VPos p) -> subtree t p = Some s ->
+  (forall k, num_val b a3 k -> (k < N.of_nat (count_lbl needle s))%N) ->
+  stable t b (FNot (count_atom x needle a3)).
+Proof. exact stable_count_exceeded. Qed.
+Print Assumptions C01_stable_count_exceeded.
+
+(* the verdicts True / False of the C14 model of isla_predicates.count (before its insertion
+   search) are the truth value of the atom on the state tree and survive every grammar-valid
+   completion: the evaluation step is an instance of eval_step_stable_g *)
+Theorem C01_count_true_stable : forall g t b x needle a3 p s k,
+  Eval3.reach_closedb g = true -> is_nt needle = true ->
+  b x = Some (VPos p) -> subtree t p = Some s -> num_val b a3 k ->
+  FixedLen.count_decide (Eval3.reachb g) needle s (Z.of_N k) = FixedLen.CTrue ->
+  models satom_denote t b (count_atom x needle a3) /\ stable_g g t b (count_atom x needle a3).
+Proof. exact count_decide_true_stable. Qed.
+Print Assumptions C01_count_true_stable.
+
+Theorem C01_count_false_stable : forall g t b x needle a3 p s k,
+  Eval3.reach_closedb g = true -> is_nt needle = true ->
+  b x = Some (VPos p) -> subtree t p = Some s -> num_val b a3 k ->
+  FixedLen.count_decide (Eval3.reachb g) needle s (Z.of_N k) = FixedLen.CFalse ->
+  models satom_denote t b (FNot (count_atom x needle a3)) /\
+  stable_g g t b (FNot (count_atom x needle a3)).
+Proof. exact count_decide_false_stable. Qed.
+Print Assumptions C01_count_false_stable.
+
+(* ---- the abstract solver, strengthened ---- *)
+(* FULL STATEMENT would have no premise about smt_step / numq_step / sem_search_step.
+   MISSING: SMT elimination (Z3 model + trees built from it), ForallInt instantiation, semantic
+   predicates answering with a tree binding (count's insertion search; class K_count lives there);
+   for universal quantifiers WITH match expression the rule's guard me_settled is semantic. *)
+Theorem C01_solve_sound_partial2 :
+  forall (g : grammar) (start : str) (i0 : N) (cst : var) (phi : cform)
+         (smt_step numq_step sem_search_step : cstate -> cstate -> Prop),
+    Eval3.reach_closedb g = true ->
+    preserves (inv g start i0 cst phi) smt_step ->
+    preserves (inv g start i0 cst phi) numq_step ->
+    preserves (inv g start i0 cst phi) sem_search_step ->
+    forall s,
+      is_nt start = true -> defined g start = true ->
+      reachable2 g cst phi smt_step numq_step sem_search_step (init_state start i0 cst phi) s ->
+      final s -> valid_solution g start cst phi (snd s).
+Proof. exact solve_sound_partial2. Qed.
+Print Assumptions C01_solve_sound_partial2.
+
+(* the steps of the strengthened system *)
+Theorem C01_step2_def : forall g cst phi smt_step numq_step sem_search_step s s',
+  step2 g cst phi smt_step numq_step sem_search_step s s' <->
+  (core_step g s s' \/ eval_step_stable s s' \/ eval_step_stable_g g s s' \/
+   infeasible_drop g s s' \/ insert_step g cst phi s s' \/
+   smt_step s s' \/ numq_step s s' \/ sem_search_step s s').
+Proof. exact step2_def. Qed.
+Print Assumptions C01_step2_def.
+
+(* non-vacuity: a run (no external steps) through split, INSERTION into the open root, split, match,
+   DROP of a universal over the open tree, evaluation of a settled COUNT atom, expansion, evaluation
+   of an SMT atom, reaching a final state; the grammar passes reach_closedb *)
+Example C01_solve_sound2_nonvacuous :
+  let R := Run2Example.none in
+  reachable2 Run2Example.g Run2Example.cst Run2Example.phi R R R
+             (init_state Run2Example.nt_s 0 Run2Example.cst Run2Example.phi) ([], Run2Example.t2) /\
+  final ([], Run2Example.t2) /\ Eval3.reach_closedb Run2Example.g = true /\
+  preserves (inv Run2Example.g Run2Example.nt_s 0 Run2Example.cst Run2Example.phi) R.
+Proof. exact solve_sound2_example. Qed.
+Print Assumptions C01_solve_sound2_nonvacuous.
